@@ -250,9 +250,83 @@ def r18_2(ctx):
                     rv = p.ret()
                     closed = rv[0] == 'param' or (rv[0] == 'field' and rv[1][0] == 'param')
         ctx.check(R, closed, 'Subsequence:wam-closed', 'once the whole pattern was seen accept must keep the state (the always-match class is closed)', fn=acc)
+        # advancing: before the whole pattern was seen the state grows by one exactly when the input byte EQUALS the next pattern byte
+        st = ('param', acc.local_name(2), 2)
+        by = ('param', acc.local_name(3), 3)
+
+        def unc(e):
+            while isinstance(e, tuple) and e[0] == 'cast':
+                e = e[1]
+            return e
+
+        def is_pat(e):
+            e = unc(e)
+            return e[0] == 'index' and any(z[0] == 'field' and z[1][0] == 'param' for z in walk(e[1])) and (unc(e[2]) == st if not isinstance(e[2], str) else False)
+
+        def cmp_of(e):
+            e = unc(e)
+            if e[0] == 'bin' and e[1] in ('Eq', 'Ne', 'Lt', 'Le', 'Gt', 'Ge') and ((unc(e[2]) == by and is_pat(e[3])) or (unc(e[3]) == by and is_pat(e[2]))):
+                return e[1]
+            if is_call(e, 'PartialEq>::eq') or is_call(e, 'PartialEq>::ne'):
+                a, b = unc(e[2][0]), unc(e[2][1])
+                if (a == by and is_pat(b)) or (b == by and is_pat(a)):
+                    return 'Eq' if e[1].endswith('::eq') else 'Ne'
+            return None
+        verdicts = []
+        for p in explore(acc, max_visits=1):
+            if p.end != 'return':
+                continue
+            d = [x for x in p.decisions if x[2][0] == 'bin' and x[2][1] in ('Eq', 'Ne') and any(is_call(y, '::len') for y in walk(x[2]))]
+            if d and ((d[-1][2][1] == 'Eq') == (d[-1][3] == 1)):
+                continue          # the "whole pattern seen" path, checked above
+            rv = unc(p.ret())
+            cd = [(cmp_of(x[2]), x[3]) for x in p.decisions if cmp_of(x[2])]
+            if rv[0] == 'bin' and rv[1] == 'Add' and st in (unc(rv[2]), unc(rv[3])):
+                other = unc(rv[3]) if unc(rv[2]) == st else unc(rv[2])
+                op = cmp_of(other)
+                if op is not None:
+                    verdicts.append('ok' if op == 'Eq' else 'bad:state + (byte %s pattern byte)' % op)
+                elif other == ('const', 1) and cd:
+                    op, o = cd[-1]
+                    eq = (op == 'Eq' and o == 1) or (op == 'Ne' and o == 0)
+                    verdicts.append('ok' if eq else 'bad:advances when byte %s pattern byte is %s' % (op, bool(o)))
+                else:
+                    verdicts.append('?')
+            elif rv == st and cd:
+                op, o = cd[-1]
+                ne = (op == 'Eq' and o == 0) or (op == 'Ne' and o == 1)
+                verdicts.append('ok' if ne else 'bad:stays although byte %s pattern byte is %s' % (op, bool(o)))
+            else:
+                verdicts.append('?')
+        bad = [v[4:] for v in verdicts if v.startswith('bad:')]
+        if bad:
+            ctx.violation(R, 'Subsequence:advance', 'Subsequence::accept must advance by one exactly when the input byte equals the next pattern byte: %s' % bad[0], fn=acc)
+        elif not verdicts or '?' in verdicts:
+            ctx.undecided(R, 'Subsequence:advance', 'the advancing step of Subsequence::accept is not in a recognised form', fn=acc)
+        else:
+            ctx.check(R, True, 'Subsequence:advance', '', fn=acc)
         if cm is not None:
             r = [p.ret() for p in explore(cm, max_visits=1) if p.end == 'return']
             ctx.check(R, r == [('const', 1)], 'Subsequence:can_match', 'Subsequence can always still match: can_match must be true', fn=cm)
+    # start states and the accepting position of the two pattern automata (language clause: "exactly its string" / "contains the pattern")
+    for ty, want in (("Str<'a>", 'Some(0)'), ("Subsequence<'a>", '0')):
+        stf = lib.fn(IMPL % (ty, 'start'))
+        if stf is None:
+            continue
+        r = [p.ret() for p in explore(stf, max_visits=1) if p.end == 'return']
+        if len(r) == 1 and (r[0][0] == 'const' or (r[0][0] == 'agg' and r[0][2] and r[0][2][0][1][0] == 'const') or (r[0][0] == 'agg' and r[0][1].endswith('::None'))):
+            v = r[0] if r[0][0] == 'const' else (r[0][2][0][1] if r[0][2] else None)
+            good = v == ('const', 0) and ((r[0][0] == 'agg' and r[0][1].endswith('::Some')) == (want == 'Some(0)'))
+            ctx.check(R, good, ty.split('<')[0] + ':start', '%s must start at pattern position 0 (%s), found %s: a different start skips or never reaches part of the pattern' % (ty.split('<')[0], want, fmt(r[0])[:40]), fn=stf)
+        else:
+            ctx.undecided(R, ty.split('<')[0] + ':start', 'start state not a literal: %s' % [fmt(x)[:40] for x in r], fn=stf)
+    im = lib.fn(IMPL % ("Str<'a>", 'is_match'))
+    if im is not None:
+        r = [p.ret() for p in explore(im, max_visits=1) if p.end == 'return']
+        if len(r) == 1 and is_call(r[0], 'PartialEq>::eq') and r[0][2][1][0] == 'agg' and r[0][2][1][1].endswith('::Some') and r[0][2][1][2]:
+            pay = r[0][2][1][2][0][1]
+            good = is_call(pay, '::len') and any(z[0] == 'field' and z[1][0] == 'param' for z in walk(pay))
+            ctx.check(R, good, 'Str:match-at-end', 'Str matches exactly when the whole string was consumed: the accepting position must be the length of the pattern, found %s' % fmt(pay)[:60], fn=im)
     ty = 'AlwaysMatch'
     for m, want in (('is_match', 1), ('can_match', 1)):
         f = lib.fn(IMPL % (ty, m))
